@@ -94,6 +94,8 @@ package shovel
 // copy W against the committed state D at that moment), for every batch size,
 // concurrency, start/stop, head, dependency position and failure point.
 //@ func (*Task).Converge props=C01,C02,C03,C04,C05,C06 ghost=db pair=task.srcName,task.destConfig.Name
+// delta = min(target - local, batch) with target > local and batch >= 1: the zero test is defensive code
+//@   unreachable if delta == 0 {
 //@   requires task.batchSize >= 1 && task.batchSize < 0x100000 && task.concurrency >= 1 && task.concurrency < 0x100000 && len(task.dests) >= 1 && task.start < 0x4000000000000000
 //@   requires notAbove(D_cur, D_rows) && atMostOnce(D_rows) && inRange(D_cur, task.start, task.stop)
 //@   commit @C06 [range] inRange(W_cur, task.start, task.stop)
